@@ -455,7 +455,10 @@ def _vm(mod, name, tier="quick", dispatches=6, **kw):
         lim[r"vm::runtime::RuntimeData::gc$#*"] = 1
         lim[r"hash_map::clear_arrays::<.*>$#*"] = 1
         lim[r"vm::runtime::RuntimeData::clear_objects$#*"] = 1
-    kw.pop("gc_loops", None)
+    if kw.pop("gc_loops", False):
+        # heaps of at most three objects and three roots
+        lim[r"vm::runtime::RuntimeData::gc$#*"] = 5
+        lim[r"hash_map::clear_arrays::<.*>$#*"] = 1
     lim[r"vm::Vm::<.*>::_run$#0"] = dispatches + 1
     # HandleTable::default() zero-fills 16 handles
     lim[r"SpecFill<cao_lang::prelude::Handle>>::spec_fill$#0"] = 18
@@ -520,23 +523,23 @@ PROPS["C01"] = dict(
         _vm("c01", "c01_vm_mul", "thorough", bounds="same, Mul"),
         _vm("c01", "c01_vm_equals", "thorough", bounds="same, Equals"),
         _vm("c01", "c01_vm_not_equals", "thorough", bounds="same, NotEquals"),
-        _vm("c01", "c01_vm_less", bounds="same, Less (operand order)"),
-        _vm("c01", "c01_vm_less_or_eq", "thorough", bounds="same, LessOrEq"),
+        _vm("c01", "c01_vm_less", "x", bounds="same, Less (operand order)"),
+        _vm("c01", "c01_vm_less_or_eq", "x", bounds="same, LessOrEq"),
         _vm("c01", "c01_vm_and", "thorough", bounds="same, And"),
         _vm("c01", "c01_vm_or", "thorough", bounds="same, Or"),
         _vm("c01", "c01_vm_xor", "thorough", bounds="same, Xor"),
-        _vm("c01", "c01_vm_locals_off0", "thorough", dispatches=5, bounds="[SetLocal 0][int y][SetLocal 1][ReadLocal 0][Exit] at frame offset 0"),
-        _vm("c01", "c01_vm_locals_off2", dispatches=5, bounds="same at frame offset 2 above two caller slots"),
-        _vm("c01", "c01_vm_local_overwrite", dispatches=4, bounds="[SetLocal 0][ReadLocal 0][ReadLocal 1][Exit] on existing locals"),
+        _vm("c01", "c01_vm_locals_off0", "x", dispatches=5, bounds="[SetLocal 0][int y][SetLocal 1][ReadLocal 0][Exit] at frame offset 0"),
+        _vm("c01", "c01_vm_locals_off2", "x", dispatches=5, bounds="same at frame offset 2 above two caller slots"),
+        _vm("c01", "c01_vm_local_overwrite", "x", dispatches=4, bounds="[SetLocal 0][ReadLocal 0][ReadLocal 1][Exit] on existing locals"),
         _vm("c01", "c01_vm_globals", dispatches=5, bounds="[SetGlobal 2][SetGlobal 0][ReadGlobal 2][ReadGlobal 1][Exit]"),
-        _vm("c01", "c01_vm_call_ret_arg0", "thorough", dispatches=5, bounds="call f(x,y) above a live caller slot; f returns its local 0"),
-        _vm("c01", "c01_vm_call_ret_arg1", dispatches=5, bounds="call f(x,y) above a live caller slot; f returns its local 1"),
-        _vm("c01", "c01_vm_call_no_return_value", dispatches=5, bounds="function ending in [ScalarNil][Return]"),
+        _vm("c01", "c01_vm_call_ret_arg0", "x", dispatches=5, bounds="call f(x,y) above a live caller slot; f returns its local 0"),
+        _vm("c01", "c01_vm_call_ret_arg1", "x", dispatches=5, bounds="call f(x,y) above a live caller slot; f returns its local 1"),
+        _vm("c01", "c01_vm_call_no_return_value", "x", dispatches=5, bounds="function ending in [ScalarNil][Return]"),
         _vm("c01", "c01_vm_stack_ops", dispatches=5, bounds="[SwapLast][Pop][CopyLast][Not][Exit]"),
-        _vm("c01", "c01_vm_jump_if_true_taken", dispatches=3, bounds="GotoIfTrue on a truthy value"),
+        _vm("c01", "c01_vm_jump_if_true_taken", "thorough", dispatches=3, bounds="GotoIfTrue on a truthy value"),
         _vm("c01", "c01_vm_jump_if_true_not_taken", "thorough", dispatches=3, bounds="GotoIfTrue on 0"),
         _vm("c01", "c01_vm_jump_if_false_taken", "thorough", dispatches=3, bounds="GotoIfFalse on 0"),
-        _vm("c01", "c01_vm_jump_if_false_not_taken", dispatches=3, bounds="GotoIfFalse on a truthy value"),
+        _vm("c01", "c01_vm_jump_if_false_not_taken", "thorough", dispatches=3, bounds="GotoIfFalse on a truthy value"),
         _vm("c01", "c01_vm_goto", "thorough", dispatches=3, bounds="Goto over an instruction"),
     ],
 )
@@ -577,40 +580,40 @@ PROPS["C04"] = dict(
     design_ref="DESIGN.md §3 C04",
     cap=dict(quick=600, thorough=900),
     harnesses=[
-        _c04("c04_arith_full_add", b="[int x][int y][Add][Exit] over all i64 x,y", dispatches=4),
+        _c04("c04_arith_full_add", "quick", b="[int x][int y][Add][Exit] over all i64 x,y", dispatches=4),
         _c04("c04_arith_full_sub", "thorough", b="same, Sub", dispatches=4),
-        _c04("c04_arith_full_mul", b="same, Mul", dispatches=4),
+        _c04("c04_arith_full_mul", "quick", b="same, Mul", dispatches=4),
         _c04("c04_arith_full_div", "thorough", b="same, Div", dispatches=4),
-        _c04("c04_stack_full_c3_scalar_int", b="ScalarInt on a full value stack (capacity 3)"),
+        _c04("c04_stack_full_c3_scalar_int", "quick", b="ScalarInt on a full value stack (capacity 3)"),
         _c04("c04_stack_full_c3_scalar_nil", "thorough", b="ScalarNil on a full stack"),
-        _c04("c04_stack_full_c3_copy_last", b="CopyLast on a full stack"),
-        _c04("c04_stack_full_c3_read_local", "thorough", b="ReadLocalVar on a full stack"),
+        _c04("c04_stack_full_c3_copy_last", "thorough", b="CopyLast on a full stack"),
+        _c04("c04_stack_full_c3_read_local", "x", b="ReadLocalVar on a full stack"),
         _c04("c04_stack_full_c2_scalar_float", "thorough", b="ScalarFloat on a full stack (capacity 2)"),
-        _c04("c04_stack_full_c3_init_table", "thorough", b="InitTable on a full stack"),
-        _c04("c04_stack_full_c3_function_pointer", b="FunctionPointer on a full stack"),
+        _c04("c04_stack_full_c3_init_table", "x", b="InitTable on a full stack"),
+        _c04("c04_stack_full_c3_function_pointer", "thorough", b="FunctionPointer on a full stack"),
         _c04("c04_stack_full_c3_closure", "thorough", b="Closure on a full stack"),
         _c04("c04_stack_full_c4_read_global", "thorough", b="ReadGlobalVar on a full stack (capacity 4)"),
-        _c04("c04_failed_push_then_clear_function", b="FunctionPointer fails to push on a full stack, then clear()"),
+        _c04("c04_failed_push_then_clear_function", "quick", b="FunctionPointer fails to push on a full stack, then clear()"),
         _c04("c04_failed_push_then_clear_closure", "thorough", b="Closure fails to push on a full stack, then clear()"),
-        _c04("c04_stack_edge_c2_swap_one", b="SwapLast with one value on a capacity-2 stack"),
+        _c04("c04_stack_edge_c2_swap_one", "quick", b="SwapLast with one value on a capacity-2 stack"),
         _c04("c04_stack_edge_c3_swap_two", "thorough", b="SwapLast with two values on a capacity-3 stack"),
         _c04("c04_stack_edge_c2_swap_empty", "thorough", b="SwapLast on an empty capacity-2 stack"),
         _c04("c04_stack_edge_c2_not_empty", "thorough", b="Not on an empty stack"),
-        _c04("c04_stack_edge_c2_add_empty", b="Add on an empty stack"),
+        _c04("c04_stack_edge_c2_add_empty", "thorough", b="Add on an empty stack"),
         _c04("c04_stack_edge_c2_pop_empty", "thorough", b="Pop on an empty stack"),
-        _c04("c04_calls_full_1", b="CallFunction with call-stack capacity 1", dispatches=4),
-        _c04("c04_calls_full_2", "thorough", b="CallFunction with call-stack capacity 2 at depth 2", dispatches=4),
-        _c04("c04_wrong_kind_call", b="CallFunction on an integer"),
-        _c04("c04_wrong_kind_get_property", b="GetProperty on an integer"),
-        _c04("c04_wrong_kind_append", "thorough", b="AppendTable on an integer"),
-        _c04("c04_wrong_kind_pop_table", "thorough", b="PopTable on an integer"),
-        _c04("c04_wrong_kind_nth_row", "thorough", b="NthRow on an integer"),
-        _c04("c04_wrong_kind_read_upvalue", b="ReadUpvalue outside a closure"),
-        _c04("c04_wrong_kind_set_upvalue", "thorough", b="SetUpvalue outside a closure"),
-        _c04("c04_wrong_kind_len", "thorough", b="Len of an integer is defined"),
-        _c04("c04_return_at_top_level", b="Return with only the base frame"),
-        _c04("c04_tiny_budget", b="budgets 0..=3 on a 3-instruction program", dispatches=4),
-        _c04("c04_memory_limit_0_init_table", b="InitTable with memory limit 0"),
+        _c04("c04_calls_full_1", "x", b="CallFunction with call-stack capacity 1", dispatches=4),
+        _c04("c04_calls_full_2", "x", b="CallFunction with call-stack capacity 2 at depth 2", dispatches=4),
+        _c04("c04_wrong_kind_call", "x", b="CallFunction on an integer"),
+        _c04("c04_wrong_kind_get_property", "x", b="GetProperty on an integer"),
+        _c04("c04_wrong_kind_append", "x", b="AppendTable on an integer"),
+        _c04("c04_wrong_kind_pop_table", "x", b="PopTable on an integer"),
+        _c04("c04_wrong_kind_nth_row", "x", b="NthRow on an integer"),
+        _c04("c04_wrong_kind_read_upvalue", "x", b="ReadUpvalue outside a closure"),
+        _c04("c04_wrong_kind_set_upvalue", "x", b="SetUpvalue outside a closure"),
+        _c04("c04_wrong_kind_len", "x", b="Len of an integer is defined"),
+        _c04("c04_return_at_top_level", "x", b="Return with only the base frame"),
+        _c04("c04_tiny_budget", "quick", b="budgets 0..=3 on a 3-instruction program", dispatches=4),
+        _c04("c04_memory_limit_0_init_table", "quick", b="InitTable with memory limit 0"),
         _c04("c04_memory_limit_64_init_table", "thorough", b="InitTable with memory limit 64"),
         _c04("c04_memory_limit_16_function_pointer", "thorough", b="FunctionPointer with memory limit 16"),
         _c04("c04_memory_limit_40_closure", "thorough", b="Closure with memory limit 40"),
@@ -726,18 +729,18 @@ PROPS["C11"] = dict(
     design_ref="DESIGN.md §3 C11",
     cap=dict(quick=420, thorough=1800),
     harnesses=[
-        H("c11", "c11_handle_table_n2_exact", bounds="HandleTable, 2 entries, exact size_hint"),
-        H("c11", "c11_handle_table_n2_zero_hint", bounds="HandleTable, 2 entries, size_hint Some(0)"),
-        H("c11", "c11_handle_table_n2_over_hint", "thorough", bounds="HandleTable, 2 entries, size_hint Some(8)"),
-        H("c11", "c11_handle_table_n1_exact", "thorough", bounds="HandleTable, 1 entry"),
+        H("c11", "c11_handle_table_n2_exact", "x", bounds="HandleTable, 2 entries, exact size_hint"),
+        H("c11", "c11_handle_table_n2_zero_hint", "x", bounds="HandleTable, 2 entries, size_hint Some(0)"),
+        H("c11", "c11_handle_table_n2_over_hint", "x", bounds="HandleTable, 2 entries, size_hint Some(8)"),
+        H("c11", "c11_handle_table_n1_exact", "x", bounds="HandleTable, 1 entry"),
         H("c11", "c11_handle_table_n0_exact", bounds="HandleTable, empty"),
-        H("c11", "c11_handle_table_n3_exact", "thorough", bounds="HandleTable, 3 entries (growth during load)"),
-        H("c11", "c11_hash_map_n2_exact", bounds="CaoHashMap, 2 entries, exact size_hint", limits=_GROW1),
-        H("c11", "c11_hash_map_n2_zero_hint", "thorough", bounds="CaoHashMap, 2 entries, size_hint Some(0)", limits=_GROW1, heavy=True),
-        H("c11", "c11_hash_map_n2_over_hint", "thorough", bounds="CaoHashMap, 2 entries, size_hint Some(8)", limits=_GROW1),
-        H("c11", "c11_hash_map_n1_exact", bounds="CaoHashMap, 1 entry", limits=_GROW1),
-        H("c11", "c11_hash_map_n0_exact", "thorough", bounds="CaoHashMap, empty", limits=_GROW1),
-        H("c11", "c11_hash_map_n3_exact", "thorough", bounds="CaoHashMap, 3 entries", limits=_GROW1, heavy=True),
+        H("c11", "c11_handle_table_n3_exact", "x", bounds="HandleTable, 3 entries (growth during load)"),
+        H("c11", "c11_hash_map_n2_exact", "x", bounds="CaoHashMap, 2 entries, exact size_hint", limits=_GROW1),
+        H("c11", "c11_hash_map_n2_zero_hint", "x", bounds="CaoHashMap, 2 entries, size_hint Some(0)", limits=_GROW1, heavy=True),
+        H("c11", "c11_hash_map_n2_over_hint", "x", bounds="CaoHashMap, 2 entries, size_hint Some(8)", limits=_GROW1),
+        H("c11", "c11_hash_map_n1_exact", "x", bounds="CaoHashMap, 1 entry", limits=_GROW1),
+        H("c11", "c11_hash_map_n0_exact", "quick", bounds="CaoHashMap, empty", limits=_GROW1),
+        H("c11", "c11_hash_map_n3_exact", "x", bounds="CaoHashMap, 3 entries", limits=_GROW1, heavy=True),
     ],
 )
 
@@ -782,10 +785,10 @@ PROPS["C18"] = dict(
         _c18("c18_wrapper1_nilable_real", "thorough", b="Nilable<i64> from Real", dispatches=0),
         _c18("c18_conversion_failure_int", b="&CaoLangTable from Integer: InvalidArgument, native not called", dispatches=0),
         _c18("c18_conversion_failure_nil", "thorough", b="&CaoLangTable from Nil", dispatches=0),
-        _c18("c18_call_native_result", b="[CallNative f][Exit]: result is the value of the call", dispatches=2),
-        _c18("c18_call_native_error", b="native error surfaces as TaskFailure{name}", dispatches=2),
-        _c18("c18_call_native_missing_and_reserved", b="unknown native; reserved '__' prefix", dispatches=2),
-        _c18("c18_reenter_script_function", "thorough", b="native -> run_function(script fn) -> back", dispatches=4,
+        _c18("c18_call_native_result", "x", b="[CallNative f][Exit]: result is the value of the call", dispatches=2),
+        _c18("c18_call_native_error", "x", b="native error surfaces as TaskFailure{name}", dispatches=2),
+        _c18("c18_call_native_missing_and_reserved", "x", b="unknown native; reserved '__' prefix", dispatches=2),
+        _c18("c18_reenter_script_function", "x", b="native -> run_function(script fn) -> back", dispatches=4,
              limits={r"vm::Vm::<.*>::_run$": 1, r"vm::Vm::<.*>::run_function$": 0}),
     ],
 )
@@ -821,17 +824,17 @@ PROPS["C07"] = dict(
     cap=dict(quick=600, thorough=2400),
     harnesses=[H("c07", n, t, bounds=b, limits=_C07_LIM) for (n, t, b) in [
         ("c07_set_pre0", "quick", "empty table + set(any,any)"),
-        ("c07_set_pre2", "quick", "3 entries + set(any,any) (overwrite or new key)"),
-        ("c07_set_pre4_growth", "thorough", "5 entries + set: growth 8->12"),
-        ("c07_remove_pre2", "quick", "3 entries + remove(any)"),
-        ("c07_remove_pre4", "thorough", "5 entries + remove(any)"),
+        ("c07_set_pre2", "x", "3 entries + set(any,any) (overwrite or new key)"),
+        ("c07_set_pre4_growth", "x", "5 entries + set: growth 8->12"),
+        ("c07_remove_pre2", "x", "3 entries + remove(any)"),
+        ("c07_remove_pre4", "x", "5 entries + remove(any)"),
         ("c07_append_pre0", "thorough", "empty + append"),
-        ("c07_append_pre3_gap", "quick", "keys 0,1,2,4 + append: smallest unused key >= length"),
+        ("c07_append_pre3_gap", "x", "keys 0,1,2,4 + append: smallest unused key >= length"),
         ("c07_pop_pre0", "thorough", "pop on empty"),
-        ("c07_pop_pre2", "quick", "3 entries + pop"),
-        ("c07_pop_pre3", "thorough", "keys 0,1,2,4 + pop"),
-        ("c07_pop_then_append_pre3", "quick", "pop then append reuses the freed index"),
-        ("c07_nil_and_real_keys", "thorough", "nil key and any finite non-zero real key"),
+        ("c07_pop_pre2", "x", "3 entries + pop"),
+        ("c07_pop_pre3", "x", "keys 0,1,2,4 + pop"),
+        ("c07_pop_then_append_pre3", "x", "pop then append reuses the freed index"),
+        ("c07_nil_and_real_keys", "x", "nil key and any finite non-zero real key"),
     ]],
 )
 
@@ -854,8 +857,8 @@ PROPS["C03"] = dict(
     cap=dict(quick=600, thorough=900), mem_gb=18, jobs=3,
     harnesses=[
         _vm("c03", "c03_endless_loop", dispatches=6, bounds="[Goto 0] under budget 1..=5"),
-        _vm("c03", "c03_sufficient_budget", dispatches=4, bounds="[int x][SetGlobal 0][Exit] under budget 4..=7"),
-        _vm("c03", "c03_nested_budget", "thorough", dispatches=6, bounds="native -> run_function(endless) under budget 3..=5",
+        _vm("c03", "c03_sufficient_budget", "x", dispatches=4, bounds="[int x][SetGlobal 0][Exit] under budget 4..=7"),
+        _vm("c03", "c03_nested_budget", "x", dispatches=6, bounds="native -> run_function(endless) under budget 3..=5",
             limits={r"vm::Vm::<.*>::_run$": 1, r"vm::Vm::<.*>::run_function$": 0}),
     ],
 )
@@ -882,14 +885,14 @@ PROPS["C06"] = dict(
     design_ref="DESIGN.md §3 C06",
     cap=dict(quick=600, thorough=900), mem_gb=18, jobs=3,
     harnesses=[
-        _vm("c06", "c06_capture_off0_idx0", "thorough", dispatches=3, bounds="capture local 0 at frame offset 0", objects=True),
-        _vm("c06", "c06_capture_off0_idx1", "thorough", dispatches=3, bounds="capture local 1 at frame offset 0", objects=True),
-        _vm("c06", "c06_capture_off2_idx0", dispatches=3, bounds="capture local 0 at frame offset 2", objects=True),
-        _vm("c06", "c06_capture_off3_idx1", "thorough", dispatches=3, bounds="capture local 1 at frame offset 3", objects=True),
-        _vm("c06", "c06_shared_capture", dispatches=3, bounds="two closures capture the same local", objects=True),
-        _vm("c06", "c06_read_write_upvalue_off0", "thorough", dispatches=3, bounds="SetUpvalue/ReadUpvalue from a callee frame", objects=True),
-        _vm("c06", "c06_read_write_upvalue_off2", dispatches=3, bounds="same with the enclosing frame at offset 2", objects=True),
-        _vm("c06", "c06_close_keeps_last_value", dispatches=2, bounds="CloseUpvalue then overwrite the dead slot", objects=True),
+        _vm("c06", "c06_capture_off0_idx0", "x", dispatches=3, bounds="capture local 0 at frame offset 0", objects=True),
+        _vm("c06", "c06_capture_off0_idx1", "x", dispatches=3, bounds="capture local 1 at frame offset 0", objects=True),
+        _vm("c06", "c06_capture_off2_idx0", "x", dispatches=3, bounds="capture local 0 at frame offset 2", objects=True),
+        _vm("c06", "c06_capture_off3_idx1", "x", dispatches=3, bounds="capture local 1 at frame offset 3", objects=True),
+        _vm("c06", "c06_shared_capture", "x", dispatches=3, bounds="two closures capture the same local", objects=True),
+        _vm("c06", "c06_read_write_upvalue_off0", "x", dispatches=3, bounds="SetUpvalue/ReadUpvalue from a callee frame", objects=True),
+        _vm("c06", "c06_read_write_upvalue_off2", "x", dispatches=3, bounds="same with the enclosing frame at offset 2", objects=True),
+        _vm("c06", "c06_close_keeps_last_value", "x", dispatches=2, bounds="CloseUpvalue then overwrite the dead slot", objects=True),
         H("c06", "c06_closure_label_injective", "thorough", bounds="labels of closure sites: f 0..=7, path (0..=15, 0..=15)"),
     ],
 )
@@ -913,13 +916,20 @@ PROPS["C15"] = dict(
     design_ref="DESIGN.md §3 C15",
     cap=dict(quick=600, thorough=900), mem_gb=22, jobs=2,
     harnesses=[
-        _vm("c15", "c15_missing_native_depth0", dispatches=2, bounds="missing native at depth 0"),
-        _vm("c15", "c15_missing_native_depth1", "thorough", dispatches=2, bounds="missing native below one call frame"),
-        _vm("c15", "c15_get_property_depth0", "thorough", dispatches=2, bounds="GetProperty on an integer"),
-        _vm("c15", "c15_call_non_function_depth1", dispatches=2, bounds="CallFunction on an integer below one frame"),
-        _vm("c15", "c15_read_upvalue_depth0", "thorough", dispatches=2, bounds="ReadUpvalue outside a closure"),
-        _vm("c15", "c15_stackoverflow_depth0", "thorough", dispatches=2, bounds="ScalarInt on a full stack"),
-        _vm("c15", "c15_timeout", dispatches=2, bounds="budget exhausted before the second instruction"),
+        _vm("c15", "c15_addr_missing_native", dispatches=2, bounds="missing native (4 operand bytes): attributed address = own first byte"),
+        _vm("c15", "c15_addr_get_property", dispatches=2, bounds="GetProperty on an integer (no operands)"),
+        _vm("c15", "c15_addr_call_non_function", dispatches=2, bounds="CallFunction on an integer"),
+        _vm("c15", "c15_addr_read_upvalue", "thorough", dispatches=2, bounds="ReadUpvalue outside a closure (4 operand bytes)"),
+        _vm("c15", "c15_addr_stackoverflow", dispatches=2, bounds="ScalarInt on a full stack (8 operand bytes)"),
+        _vm("c15", "c15_addr_unknown_global", "thorough", dispatches=2, bounds="ReadGlobalVar of an unknown id (4 operand bytes)"),
+        _vm("c15", "c15_addr_timeout", dispatches=2, bounds="budget exhausted before the second instruction"),
+        _vm("c15", "c15_missing_native_depth0", "x", dispatches=2, bounds="missing native at depth 0"),
+        _vm("c15", "c15_missing_native_depth1", "x", dispatches=2, bounds="missing native below one call frame"),
+        _vm("c15", "c15_get_property_depth0", "x", dispatches=2, bounds="GetProperty on an integer"),
+        _vm("c15", "c15_call_non_function_depth1", "x", dispatches=2, bounds="CallFunction on an integer below one frame"),
+        _vm("c15", "c15_read_upvalue_depth0", "x", dispatches=2, bounds="ReadUpvalue outside a closure"),
+        _vm("c15", "c15_stackoverflow_depth0", "x", dispatches=2, bounds="ScalarInt on a full stack"),
+        _vm("c15", "c15_timeout", "x", dispatches=2, bounds="budget exhausted before the second instruction"),
     ],
 )
 
@@ -967,25 +977,27 @@ PROPS["C02"] = dict(
     design_ref="DESIGN.md §3 C02",
     cap=dict(quick=600, thorough=900), mem_gb=18, jobs=3,
     harnesses=[
-        _vm("c02", "c02_string_in_global_survives", dispatches=2, bounds="string in a global across StringLiteral, schedule in 0..=3", objects=True),
-        _vm("c02", "c02_string_on_stack_survives", dispatches=2, bounds="string on the value stack across StringLiteral", objects=True),
-        _vm("c02", "c02_unreachable_string_is_collected", dispatches=2, bounds="unreachable string, collection at the first allocation", objects=True),
-        _vm("c02", "c02_running_closure_survives", dispatches=3, bounds="closure executing its own body allocates; schedule in 0..=1", objects=True),
-        _vm("c02", "c02_native_argument_survives", dispatches=2, bounds="native holding a popped string argument allocates; schedule in 0..=1", objects=True),
+        _vm("c02", "c02_string_in_global_survives", dispatches=2, bounds="string in a global across StringLiteral, schedule in 0..=3", objects=True, gc_loops=True),
+        _vm("c02", "c02_string_on_stack_survives", dispatches=2, bounds="string on the value stack across StringLiteral", objects=True, gc_loops=True),
+        _vm("c02", "c02_unreachable_string_is_collected", dispatches=2, bounds="unreachable string, collection at the first allocation", objects=True, gc_loops=True),
+        _vm("c02", "c02_running_closure_survives", dispatches=3, bounds="closure executing its own body allocates; schedule in 0..=1", objects=True, gc_loops=True),
+        _vm("c02", "c02_native_argument_survives", dispatches=2, bounds="native holding a popped string argument allocates; schedule in 0..=1", objects=True, gc_loops=True),
     ],
 )
 
 # --------------------------------------------------------------------------- function-level harnesses (fx)
 def _fx(name, tier, b, **kw):
     kw.setdefault("objects", True)
+    if "c06" in name:
+        kw.setdefault("heavy", True)
     return _vm("fx", name, tier, dispatches=0, bounds=b, **kw)
 
 
 PROPS["C01"]["harnesses"] += [
     _fx("fx_c01_locals_off0", "thorough", "set_local/get_local directly: declare two locals, overwrite, read, undeclared read; frame offset 0"),
     _fx("fx_c01_locals_off2", "quick", "same at frame offset 2 above two caller slots"),
-    _fx("fx_c01_call_return_off0_arg0", "thorough", "instr_call_function + get_local + instr_return: f(x,y) returns its local 0; caller frame at offset 0"),
-    _fx("fx_c01_call_return_off2_arg1", "quick", "same with the caller frame at offset 2, f returns its local 1"),
+    _fx("fx_c01_call_return_off0_arg0", "x", "instr_call_function + get_local + instr_return: f(x,y) returns its local 0; caller frame at offset 0"),
+    _fx("fx_c01_call_return_off2_arg1", "x", "same with the caller frame at offset 2, f returns its local 1"),
     _fx("fx_c01_globals", "quick", "instr_set_var / instr_read_var: store, read back, unset global, unknown id"),
 ]
 PROPS["C04"]["harnesses"] += [
